@@ -128,6 +128,27 @@ error:
 }
 
 /*
+ * make_complex: build a complex number from its two parts
+ *   @re: real part
+ *   @im: imaginary part
+ *
+ *   No arithmetic: re + im * I adds im * 0.0 to the real part, which
+ *   turns a negative zero into +0 and gives NaN when im is infinite.
+ */
+static double complex make_complex(double re, double im)
+{
+#ifdef CMPLX
+    return CMPLX(re, im);
+#else
+    double complex z;
+
+    ((double *)&z)[0] = re;	/* C99 6.2.5: same layout as double[2] */
+    ((double *)&z)[1] = im;
+    return z;
+#endif
+}
+
+/*
  * parse_complex: parse a complex number
  *   @vlsp: pointer to vnacal_load info structure
  *   @node: yaml node containing text
@@ -195,22 +216,22 @@ static int parse_complex(vnacal_load_state_t *vlsp,
 	*result = I;
 	break;
     case 5:	/* number j */
-	*result = value1 * I;
+	*result = make_complex(0.0, value1);
 	break;
     case 6:	/* number number j */
-	*result = value1 + value2 * I;
+	*result = make_complex(value1, value2);
 	break;
     case 12:	/* +j */
 	*result = I;
 	break;
     case 13:	/* number + j */
-	*result = value1 + I;
+	*result = make_complex(value1, 1.0);
 	break;
     case 20:	/* -j */
-	*result = -I;
+	*result = make_complex(0.0, -1.0);
 	break;
     case 21:	/* number - j */
-	*result = value1 - I;
+	*result = make_complex(value1, -1.0);
 	break;
     default:
 	goto error;
